@@ -2,6 +2,7 @@ import Driver.Util
 import Driver.State
 import GFS.Base.Md5
 import GFS.Model.Bolt
+import GFS.Model.FsBackend
 import GFS.Spec.S3
 import GFS.Spec.Listing
 /-
@@ -16,6 +17,7 @@ open GFS GFS.Model
 structure ApiState where
   kind : String := "bolt"
   bolt : Bolt.DB := []
+  fs   : FsB.FsS := ⟨[]⟩
   ref  : Spec.S3.Store := []
 
 def showRes {α} (r : Res α) (f : α → String) : String :=
@@ -51,8 +53,63 @@ def refListing (st : ApiState) (b : Bytes) (p : Prefix) : String :=
 def projListing (l : ObjectList) : String :=
   s!"list C={showKeys (l.contents.map (·.key))} P={showKeys l.prefixes}"
 
+/-- the multi-bucket file-system backend (Model/FsBackend); a request whose key the backend
+    refuses is not shown to the reference store -/
+def stepApiFs (st : ApiState) (toks : List String) : Option (ApiState × String × String) :=
+  let md5 := Md5.md5
+  let refused {α} (r : Res α) : Bool := match r with | .err .InvalidArgument => true | _ => false
+  match toks with
+  | ["api.mk", b] =>
+    let (fs, r) := FsB.createBucket st.fs (fromHex b)
+    let (st', sp) := refStep { st with fs := fs } (.createBucket (fromHex b))
+    some (st', showRes r fun _ => "ok", sp)
+  | ["api.rm", b] =>
+    let (fs, r) := FsB.deleteBucket st.fs (fromHex b)
+    let existed := (SMap.find st.ref (fromHex b)).isSome
+    let (st', sp) := refStep { st with fs := fs } (.deleteBucket (fromHex b))
+    -- an absent bucket surfaces the raw file-system error at the interface (NoSuchBucket over HTTP)
+    some (st', showRes r fun _ => "ok", if existed then sp else "-")
+  | ["api.force", b] =>
+    let (fs, r) := FsB.forceDeleteBucket st.fs (fromHex b)
+    let existed := (SMap.find st.ref (fromHex b)).isSome
+    some ({ st with fs := fs, ref := SMap.erase st.ref (fromHex b) }, showRes r fun _ => "ok", if existed then "ok" else "-")
+  | ["api.exists", b] =>
+    some (st, toString (FsB.bucketExists st.fs (fromHex b)), toString (SMap.find st.ref (fromHex b)).isSome)
+  | ["api.buckets"] =>
+    some (st, "buckets " ++ showKeys (FsB.listBuckets st.fs), "buckets " ++ showKeys (SMap.keys st.ref))
+  | ["api.put", b, k, md, body] =>
+    let (fs, r) := FsB.putObject md5 st.fs (fromHex b) (fromHex k) (parseMeta md) (fromHex body)
+    if refused r then some ({ st with fs := fs }, showRes r fun _ => "ok", "-") else
+    let (st', sp) := refStep { st with fs := fs } (.put (fromHex b) (fromHex k) (fromHex body))
+    some (st', showRes r fun _ => "ok", sp)
+  | ["api.get", b, k] =>
+    let r := FsB.getObject md5 st.fs (fromHex b) (fromHex k)
+    let (st', sp) := refStep st (.get (fromHex b) (fromHex k))
+    some (st', showRes r fun o => s!"obj {toHex o.body} {toHex o.hash} meta={showMeta o.md}", sp)
+  | ["api.head", b, k] =>
+    let r := FsB.getObject md5 st.fs (fromHex b) (fromHex k)
+    let (_, sp) := refStep st (.head (fromHex b) (fromHex k))
+    some (st, showRes r fun o => s!"hobj {o.body.length} {toHex o.hash} meta={showMeta o.md}", if sp.startsWith "obj" then "-" else sp)
+  | ["api.del", b, k] =>
+    let (fs, r) := FsB.deleteObject st.fs (fromHex b) (fromHex k)
+    if refused r then some ({ st with fs := fs }, showRes r fun _ => "ok", "-") else
+    let (st', sp) := refStep { st with fs := fs } (.delete (fromHex b) (fromHex k))
+    some (st', showRes r fun _ => "ok", sp)
+  | ["api.delmulti", b, ks] =>
+    let (fs, r) := FsB.deleteMulti st.fs (fromHex b) (parseKeys ks)
+    let (st', sp) := refStep { st with fs := fs } (.deleteMulti (fromHex b) (parseKeys ks))
+    some (st', showRes r fun (d, f) => "deleted " ++ showKeys d ++ (if f.isEmpty then "" else s!" errors={f.length}"), sp)
+  | ["api.copy", sb, sk, db_, dk, md] =>
+    let (fs, r) := FsB.copyObject md5 st.fs (fromHex sb) (fromHex sk) (fromHex db_) (fromHex dk) (parseMeta md)
+    if refused r then some ({ st with fs := fs }, showRes r fun h => s!"copied {toHex h}", "-") else
+    let dstThere := (SMap.find st.ref (fromHex db_)).isSome
+    let (st', sp) := refStep { st with fs := fs } (.copy (fromHex sb) (fromHex sk) (fromHex db_) (fromHex dk))
+    some (st', showRes r fun h => s!"copied {toHex h}", if dstThere then sp else "-")
+  | _ => none
+
 def stepApi (st : ApiState) (toks : List String) : Option (ApiState × String × String) :=
   let md5 := Md5.md5
+  if st.kind == "fsM" && toks.head? != some "api.reset" then stepApiFs st toks else
   match toks with
   | ["api.reset", kind] => some ({ kind := kind }, "ok", "-")
   | ["api.mk", b] =>
